@@ -37,18 +37,20 @@ def isDigit (c : Char) : Bool := decide (48 ≤ c.toNat ∧ c.toNat ≤ 57)
 /-- value of a digit string, most significant first -/
 def digitsVal (ds : List Char) : Nat := ds.foldl (fun a c => a * 10 + (c.toNat - 48)) 0
 
+/-- the digit part: non-empty, decimal digits only, value within `int` = int64 -/
+def atoiDigits (neg : Bool) (ds : List Char) : Option Int :=
+  if ds.isEmpty then none                                     -- ErrSyntax
+  else if !ds.all isDigit then none                           -- ErrSyntax
+  else if neg then (if digitsVal ds ≤ 9223372036854775808 then some (-(digitsVal ds : Int)) else none)   -- ErrRange
+  else (if digitsVal ds < 9223372036854775808 then some (digitsVal ds : Int) else none)                  -- ErrRange
+
 /-- strconv.Atoi on the characters of the argument: one optional sign, then one or more decimal digits
     (no spaces, no underscores, no base prefixes), value within `int` = int64; anything else is an error (`none`).
     (Atoi's fast path for short strings and its ParseInt(s, 10, 0) slow path accept the same language.) -/
-def atoiChars (s : List Char) : Option Int :=
-  let neg := match s with | '-' :: _ => true | _ => false
-  let ds := match s with | '+' :: r => r | '-' :: r => r | _ => s
-  if ds.isEmpty then none                                     -- ErrSyntax
-  else if !ds.all isDigit then none                           -- ErrSyntax
-  else
-    let n := digitsVal ds
-    if neg then (if n ≤ 9223372036854775808 then some (-(n : Int)) else none)   -- ErrRange
-    else (if n < 9223372036854775808 then some (n : Int) else none)             -- ErrRange
+def atoiChars : List Char → Option Int
+  | '+' :: r => atoiDigits false r
+  | '-' :: r => atoiDigits true r
+  | s => atoiDigits false s
 
 def atoi (s : String) : Option Int := atoiChars s.toList
 
@@ -329,17 +331,17 @@ def verifyH (fx : Fixes) (s : Store String) (excess : Int) (body : Bind (List (S
 
 /-- registerWebhook -/
 def webhookRegisterH (fx : Fixes) (hooks : List Hook) (bindErr : Bool) (url : String) : Response × List Hook :=
+  -- `if err != nil { ErrorResponse(ErrBindBody) }` — and no `return`
   let w : Option Response :=
     if bindErr then some (send afterBindAbort Gen.errBindBody.status (errDoc Gen.errBindBody)) else none
-  match w, fx.webhookReturnsAfterBindError with
-  | some r, true => (r, hooks)                                                                          -- SWITCH 4
-  | _, _ =>
-    if url = "" then (send w Gen.errURLBodyRequired.status (errDoc Gen.errURLBodyRequired), hooks)
-    else
-      match createWebhook hooks url with
-      | (.created, hooks') => (send w 200 .value, hooks')
-      | (.refreshed, hooks') => (send w 200 .value, hooks')
-      | (.alreadyActive, _) => (send w Gen.errRefreshWebhook.status (errDoc Gen.errRefreshWebhook), hooks)
+  if bindErr && fx.webhookReturnsAfterBindError then
+    (send afterBindAbort Gen.errBindBody.status (errDoc Gen.errBindBody), hooks)                          -- SWITCH 4
+  else if url = "" then (send w Gen.errURLBodyRequired.status (errDoc Gen.errURLBodyRequired), hooks)
+  else
+    let p := createWebhook hooks url
+    match p.1 with
+    | .alreadyActive => (send w Gen.errRefreshWebhook.status (errDoc Gen.errRefreshWebhook), hooks)
+    | _ => (send w 200 .value, p.2)                    -- created or refreshed
 
 /-- getWebhook: `c.Query("url")` -/
 def webhookGetH (hooks : List Hook) (url : Option String) : Response :=
